@@ -33,6 +33,22 @@ CLAIMED = {
             "always evaluates to a value of its sort; sort consistency of locals is preserved by execution; progress with definite "
             "assignment). The property is REFUTED for the faithful model (D2, D14). Per run: K2; wf_effect is evaluated in Coq on the "
             "denotation of every real output.", "proved-sound checker run on every output; model refutations; K2"),
+    "C01": ("Partial. Per run EVERY accepted part of the sampled (quick: 150 + known call sites) or whole (thorough: 2181 definitions, 72 two-part) "
+            "corpus and the 13 sub-routines is compared tree-for-tree with the model (K2, hybrid counter chained over parts) and run through the "
+            "differential oracle (C semantics of the behaviour text vs RzIL semantics of the real output over boundary/random states), guard flags and "
+            "classes are reported. Theorems: the statement is REFUTED by a shipped instruction (L2_loadrub_pbr, D5); six shipped instructions "
+            "(A2_combine_*, C4_fastcorner9*) were mistranslated by D1 and are repaired by a fix: commit (Example); the value theorem for pure "
+            "expressions of any depth (C01_expressions_partial). Floats and opaque plugin macros have no prescribed value (structural comparison only).",
+            "model + theorems + refutation by a shipped instruction; K2 and differential oracle over the corpus"),
+    "C13": ("Full for the modelled bookkeeping: attrs_spec (proofs/MetaSpec.v) proves for EVERY behaviour that each reported flag holds exactly when the "
+            "property's structural condition holds (WRITE_Pn exactly for the numbered predicates assigned, NONE iff none), over the token table, call sites, "
+            "get_meta and reset sets REGENERATED from HexagonExtensions.py / RZILTransformer.py / Compiler.py; attrs_history proves independence of every "
+            "compilation history (after the fix: commit for D9). K4 ties model/Meta.v to the code on random histories (two Compiler instances, failing inputs).",
+            "Coq proof over regenerated tables + structural induction; correspondence K4 on histories"),
+    "C14": ("Partial. Obligations over the regenerated field/call tables: the only holder field that survives reset() is hybrid_op_count; reset_flags clears "
+            "every field get_meta reads; every entry point resets on every exit path (after the fix: commit for D10). K-hist: random histories with failing "
+            "inputs, two instances, both entry points, each step compared with a fresh process up to renaming of h_tmpN. Not proved: that the counter's only "
+            "influence on the model is that renaming (tested).", "Coq obligations over regenerated tables; history correspondence K-hist"),
     "C15": ("Partial. REFUTED (D7: comma, goto, break, continue, labels are accepted and dropped), rejected constructs shown rejected on the "
             "model; per run: K2 on each unsupported construct at every statement position; oracle: accepted program must not contain a construct "
             "of the property's list (known: the five dropped ones).", "model + refutation witnesses; K2; construct oracle"),
